@@ -131,7 +131,9 @@ func main() {
 
 	if fl.Tier == "thorough" {
 		scratch := evid.NewRun(fl.Prop, fl.Tier, fl.Seed, "exploration", "pmsim-calibration-rerun")
-		sort.Slice(rejectJobs, func(a, b int) bool { return rejectJobs[a].idx*3+rejectJobs[a].kind < rejectJobs[b].idx*3+rejectJobs[b].kind })
+		sort.Slice(rejectJobs, func(a, b int) bool {
+			return rejectJobs[a].idx*3+rejectJobs[a].kind < rejectJobs[b].idx*3+rejectJobs[b].kind
+		})
 		for _, j := range rejectJobs {
 			if c := runCase(scratch, genCase(fl.Seed, j.idx, j.kind), true); c.skipped == "" {
 				calCases = append(calCases, c)
